@@ -43,8 +43,7 @@ def warm():
     import AEIC.missions.writable_database  # noqa: F401
     import AEIC.config.core as core
 
-    pkg = os.path.dirname(os.path.dirname(core.__file__))
-    repo_root = os.path.dirname(os.path.dirname(pkg))
+    repo_root = os.environ.get('VERIF_REPO', '/repo')
     p = os.path.join(repo_root, 'tests', 'data', 'missions', 'oag-2019-test-subset.sqlite')
     _SHIPPED = p if os.path.exists(p) else None
 
